@@ -66,9 +66,13 @@ def serve (s : St) (o : Obj) : St :=
 
 /-- Next that has to reserve a new interval first. -/
 def refill (s : St) (o : Obj) : St :=
-  { s with store := some (mark s + o.interval),
-           obj := some { interval := o.interval, next := mark s + 1, reserved := mark s + o.interval },
+  { s with store := some (mark s + lease (mark s) o.interval),
+           obj := some { interval := o.interval, next := mark s + 1, reserved := mark s + lease (mark s) o.interval },
            returned := mark s :: s.returned }
+
+theorem lease_le (m i : Nat) : lease m i ≤ i := by unfold lease; omega
+
+theorem lease_cap (m i : Nat) (h : m ≤ cap) : m + lease m i ≤ cap := by unfold lease; omega
 
 /-- Release of a held lease. -/
 def rel (s : St) (o : Obj) : St :=
@@ -109,11 +113,12 @@ theorem inv_serve {s : St} {o : Obj} (h : Inv s) (hobj : s.obj = some o) (hl : h
   · intro o' ho'; simp only [serve, Option.some.injEq] at ho'; subst ho'
     rw [hm]; exact h.res_le o hobj
 
-theorem inv_refill {s : St} {o : Obj} (h : Inv s) (hobj : s.obj = some o) (hl : hasLease o = false) :
-    Inv (refill s o) := by
+theorem inv_refill {s : St} {o : Obj} (h : Inv s) (hobj : s.obj = some o) (hl : hasLease o = false)
+    (hpos : lease (mark s) o.interval ≠ 0) : Inv (refill s o) := by
   have hip := h.ipos o hobj
   have hnl := h.nolease (by intro o' ho'; rw [hobj] at ho'; cases ho'; exact hl)
-  have hm : mark (refill s o) = mark s + o.interval := rfl
+  have hle := lease_le (mark s) o.interval
+  have hm : mark (refill s o) = mark s + lease (mark s) o.interval := rfl
   constructor
   · intro r hr
     simp only [refill, List.mem_cons] at hr
@@ -160,8 +165,9 @@ theorem inv_rel {s : St} {o : Obj} (h : Inv s) (hobj : s.obj = some o) (hl : has
 
 /-- Crash after the store write of `update`: the mark moved, the object is gone. -/
 theorem inv_crash_write {s : St} {o : Obj} (h : Inv s) (hobj : s.obj = some o) (hl : hasLease o = false) :
-    Inv (abandon { s with store := some (mark s + o.interval) }) := by
+    Inv (abandon { s with store := some (mark s + lease (mark s) o.interval) }) := by
   have hnl := h.nolease (by intro o' ho'; rw [hobj] at ho'; cases ho'; exact hl)
+  have hle := lease_le (mark s) o.interval
   simp only [abandon, hobj]
   constructor
   · intro r hr
@@ -180,6 +186,22 @@ theorem abandon_serve (s : St) (o : Obj) (hobj : s.obj = some o) :
 theorem abandon_rel (s : St) (o : Obj) (hobj : s.obj = some o) :
     abandon (rel s o) = abandon { s with store := some o.next } := by
   simp [abandon, rel, hobj]
+
+theorem inv_failset {s : St} {o : Obj} (h : Inv s) (hobj : s.obj = some o) (hl : hasLease o = false) :
+    Inv { s with obj := some { o with next := mark s } } := by
+  have hnl := h.nolease (by intro o' ho'; rw [hobj] at ho'; cases ho'; exact hl)
+  have hres := h.res_le o hobj
+  have hm : mark { s with obj := some { o with next := mark s } } = mark s := rfl
+  constructor
+  · intro r hr; rw [hm]; exact h.below_mark r hr
+  · intro o' ho' hl'
+    simp only [Option.some.injEq] at ho'; subst ho'
+    simp only [hasLease, decide_eq_true_eq] at hl'
+    omega
+  · intro _; rw [hm]; exact hnl
+  · intro o' ho'; simp only [Option.some.injEq] at ho'; subst ho'; exact h.ipos o hobj
+  · exact h.sorted
+  · intro o' ho'; simp only [Option.some.injEq] at ho'; subst ho'; rw [hm]; exact hres
 
 theorem inv_step {s : St} {op : Op} (h : Inv s) (hw : op.wf)
     (hop : ∀ f, op ≠ .failNext f) (hop' : op ≠ .failRelease) : Inv (step s op).1 := by
@@ -207,8 +229,12 @@ theorem inv_step {s : St} {op : Op} (h : Inv s) (hw : op.wf)
         have : (step s .next).1 = serve s o := by simp [step, hobj, hl, serve]
         rw [this]; exact inv_serve h hobj hl
       | false =>
-        have : (step s .next).1 = refill s o := by simp [step, hobj, hl, refill, update]
-        rw [this]; exact inv_refill h hobj hl
+        by_cases hz : lease (mark s) o.interval = 0
+        · have : (step s .next).1 = { s with obj := some { o with next := mark s } } := by
+            simp [step, hobj, hl, hz]
+          rw [this]; exact inv_failset h hobj hl
+        · have : (step s .next).1 = refill s o := by simp [step, hobj, hl, hz, refill, update]
+          rw [this]; exact inv_refill h hobj hl hz
   | release =>
     cases hobj : s.obj with
     | none => simpa [step, hobj] using h
@@ -244,25 +270,14 @@ theorem inv_step {s : St} {op : Op} (h : Inv s) (hw : op.wf)
         | nextRead => simpa [step, hobj, hl] using inv_abandon h
         | relWrite => simpa [step, hobj, hl] using inv_abandon h
         | nextWrite =>
-          have : (step s (.crash .nextWrite)).1 = abandon { s with store := some (mark s + o.interval) } := by
-            simp [step, hobj, hl]
-          rw [this]; exact inv_crash_write h hobj hl
-
-theorem inv_failset {s : St} {o : Obj} (h : Inv s) (hobj : s.obj = some o) (hl : hasLease o = false) :
-    Inv { s with obj := some { o with next := mark s } } := by
-  have hnl := h.nolease (by intro o' ho'; rw [hobj] at ho'; cases ho'; exact hl)
-  have hres := h.res_le o hobj
-  have hm : mark { s with obj := some { o with next := mark s } } = mark s := rfl
-  constructor
-  · intro r hr; rw [hm]; exact h.below_mark r hr
-  · intro o' ho' hl'
-    simp only [Option.some.injEq] at ho'; subst ho'
-    simp only [hasLease, decide_eq_true_eq] at hl'
-    omega
-  · intro _; rw [hm]; exact hnl
-  · intro o' ho'; simp only [Option.some.injEq] at ho'; subst ho'; exact h.ipos o hobj
-  · exact h.sorted
-  · intro o' ho'; simp only [Option.some.injEq] at ho'; subst ho'; rw [hm]; exact hres
+          by_cases hz : lease (mark s) o.interval = 0
+          · have : (step s (.crash .nextWrite)).1 = { s with obj := some { o with next := mark s } } := by
+              simp [step, hobj, hl, hz]
+            rw [this]; exact inv_failset h hobj hl
+          · have : (step s (.crash .nextWrite)).1 =
+                abandon { s with store := some (mark s + lease (mark s) o.interval) } := by
+              simp [step, hobj, hl, hz]
+            rw [this]; exact inv_crash_write h hobj hl
 
 theorem inv_step' {s : St} {op : Op} (h : Inv s) (hw : op.wf) : Inv (step s op).1 := by
   cases op with
@@ -296,5 +311,150 @@ theorem inv_final (ops : List Op) (hw : ∀ op ∈ ops, op.wf) {s : St} (h : Inv
   | cons op ops ih =>
     simp only [final, List.foldl_cons]
     exact ih (fun o ho => hw o (List.mem_cons_of_mem _ ho)) (inv_step' h (hw op (List.mem_cons_self)))
+
+/-! ## No value ever exceeds `cap`: the code's `uint64` arithmetic never wraps around -/
+
+structure Bnd (s : St) : Prop where
+  mark_le : mark s ≤ cap
+  next_le : ∀ o, s.obj = some o → o.next ≤ mark s
+
+theorem bnd_init : Bnd init := by constructor <;> simp [init, mark]
+
+theorem bnd_abandon {s : St} (h : Bnd s) : Bnd (abandon s) := by
+  have hm : mark (abandon s) = mark s := by simp [mark, abandon_store]
+  constructor
+  · rw [hm]; exact h.mark_le
+  · intro o ho; simp [abandon_obj] at ho
+
+theorem bnd_serve {s : St} {o : Obj} (hi : Inv s) (h : Bnd s) (hobj : s.obj = some o) (hl : hasLease o = true) :
+    Bnd (serve s o) := by
+  obtain ⟨_, h2, _, _⟩ := hi.lease o hobj hl
+  simp only [hasLease, decide_eq_true_eq] at hl
+  have hm : mark (serve s o) = mark s := rfl
+  constructor
+  · rw [hm]; exact h.mark_le
+  · intro o' ho'; simp only [serve, Option.some.injEq] at ho'; subst ho'
+    rw [hm]; simp only; omega
+
+theorem bnd_refill {s : St} {o : Obj} (h : Bnd s) (hpos : lease (mark s) o.interval ≠ 0) : Bnd (refill s o) := by
+  have hm : mark (refill s o) = mark s + lease (mark s) o.interval := rfl
+  constructor
+  · rw [hm]; exact lease_cap _ _ h.mark_le
+  · intro o' ho'; simp only [refill, Option.some.injEq] at ho'; subst ho'
+    rw [hm]; simp only; omega
+
+theorem bnd_rel {s : St} {o : Obj} (h : Bnd s) (hobj : s.obj = some o) : Bnd (rel s o) := by
+  have hm : mark (rel s o) = o.next := rfl
+  have := h.next_le o hobj
+  constructor
+  · rw [hm]; exact Nat.le_trans this h.mark_le
+  · intro o' ho'; simp only [rel, Option.some.injEq] at ho'; subst ho'; rw [hm]; exact Nat.le_refl _
+
+theorem bnd_failset {s : St} {o : Obj} (h : Bnd s) : Bnd { s with obj := some { o with next := mark s } } := by
+  constructor
+  · exact h.mark_le
+  · intro o' ho'; simp only [Option.some.injEq] at ho'; subst ho'; exact Nat.le_refl _
+
+theorem bnd_crash_write {s : St} {o : Obj} (h : Bnd s) (hobj : s.obj = some o) :
+    Bnd (abandon { s with store := some (mark s + lease (mark s) o.interval) }) := by
+  simp only [abandon, hobj]
+  constructor
+  · simpa [mark] using lease_cap _ o.interval h.mark_le
+  · intro o' ho'; simp at ho'
+
+theorem bnd_step' {s : St} {op : Op} (hi : Inv s) (h : Bnd s) : Bnd (step s op).1 := by
+  cases op with
+  | new i =>
+    have ha := bnd_abandon h
+    simp only [step]
+    constructor
+    · simpa [mark] using ha.mark_le
+    · intro o ho; simp only [Option.some.injEq] at ho; subst ho; exact Nat.zero_le _
+  | next =>
+    cases hobj : s.obj with
+    | none => simpa [step, hobj] using h
+    | some o =>
+      cases hl : hasLease o with
+      | true =>
+        have : (step s .next).1 = serve s o := by simp [step, hobj, hl, serve]
+        rw [this]; exact bnd_serve hi h hobj hl
+      | false =>
+        by_cases hz : lease (mark s) o.interval = 0
+        · have : (step s .next).1 = { s with obj := some { o with next := mark s } } := by
+            simp [step, hobj, hl, hz]
+          rw [this]; exact bnd_failset h
+        · have : (step s .next).1 = refill s o := by simp [step, hobj, hl, hz, refill, update]
+          rw [this]; exact bnd_refill h hz
+  | release =>
+    cases hobj : s.obj with
+    | none => simpa [step, hobj] using h
+    | some o =>
+      cases hl : hasLease o with
+      | false => simpa [step, hobj, hl] using h
+      | true =>
+        have : (step s .release).1 = rel s o := by simp [step, hobj, hl, rel]
+        rw [this]; exact bnd_rel h hobj
+  | crash pt =>
+    cases hobj : s.obj with
+    | none => simpa [step, hobj] using h
+    | some o =>
+      cases hl : hasLease o with
+      | true =>
+        cases pt with
+        | idle => simpa [step, hobj] using bnd_abandon h
+        | nextRead =>
+          have : (step s (.crash .nextRead)).1 = abandon (serve s o) := by
+            simp [step, hobj, hl, abandon_serve]
+          rw [this]; exact bnd_abandon (bnd_serve hi h hobj hl)
+        | nextWrite =>
+          have : (step s (.crash .nextWrite)).1 = abandon (serve s o) := by
+            simp [step, hobj, hl, abandon_serve]
+          rw [this]; exact bnd_abandon (bnd_serve hi h hobj hl)
+        | relWrite =>
+          have : (step s (.crash .relWrite)).1 = abandon (rel s o) := by
+            simp [step, hobj, hl, abandon_rel]
+          rw [this]; exact bnd_abandon (bnd_rel h hobj)
+      | false =>
+        cases pt with
+        | idle => simpa [step, hobj] using bnd_abandon h
+        | nextRead => simpa [step, hobj, hl] using bnd_abandon h
+        | relWrite => simpa [step, hobj, hl] using bnd_abandon h
+        | nextWrite =>
+          by_cases hz : lease (mark s) o.interval = 0
+          · have : (step s (.crash .nextWrite)).1 = { s with obj := some { o with next := mark s } } := by
+              simp [step, hobj, hl, hz]
+            rw [this]; exact bnd_failset h
+          · have : (step s (.crash .nextWrite)).1 =
+                abandon { s with store := some (mark s + lease (mark s) o.interval) } := by
+              simp [step, hobj, hl, hz]
+            rw [this]; exact bnd_crash_write h hobj
+  | failNext f =>
+    cases hobj : s.obj with
+    | none => simpa [step, hobj] using h
+    | some o =>
+      cases hl : hasLease o with
+      | true =>
+        have : (step s (.failNext f)).1 = serve s o := by simp [step, hobj, hl, serve]
+        rw [this]; exact bnd_serve hi h hobj hl
+      | false =>
+        cases f with
+        | get => simpa [step, hobj, hl] using h
+        | set =>
+          have : (step s (.failNext .set)).1 = { s with obj := some { o with next := mark s } } := by
+            simp [step, hobj, hl]
+          rw [this]; exact bnd_failset h
+  | failRelease =>
+    cases hobj : s.obj with
+    | none => simpa [step, hobj] using h
+    | some o => cases hl : hasLease o <;> simpa [step, hobj, hl] using h
+
+theorem bnd_final (ops : List Op) (hw : ∀ op ∈ ops, op.wf) {s : St} (hi : Inv s) (h : Bnd s) :
+    Bnd (final s ops) := by
+  induction ops generalizing s with
+  | nil => simpa [final] using h
+  | cons op ops ih =>
+    simp only [final, List.foldl_cons]
+    exact ih (fun o ho => hw o (List.mem_cons_of_mem _ ho)) (inv_step' hi (hw op (List.mem_cons_self)))
+      (bnd_step' hi h)
 
 end Hive.Seq
